@@ -45,6 +45,11 @@ def generate(rng: random.Random, tier: str):
                "validate": True, "old": small_graph(rng) if pre == "geff" else None, **malform(rng, g)}
     for i in range(14 if tier == "quick" else 120):
         yield dicts_case(rng)
+    # every other writing entry point on a directory target (converters, write_dicts / backend writers called directly, the
+    # spatial-graph writer): harness/c05_entries.py, tied to Entry.v
+    from harness import c05_entries
+
+    yield from c05_entries.generate(rng, tier)
 
 
 def dicts_case(rng):
@@ -147,6 +152,10 @@ def same_mem(a, b):
 def run_impl(c):
     from geff.core_io import read_to_memory
 
+    if c["kind"] == "ecrash":
+        from harness import c05_entries
+
+        return c05_entries.run_impl(c)
     it = Interner()
     obs = {}
     new, old = expected_graphs(c)
@@ -241,6 +250,10 @@ def coq_case(c, o):
 
 
 def oracle(c, o):
+    if c["kind"] == "ecrash":
+        from harness import c05_entries
+
+        return c05_entries.oracle(c, o)
     bad = [i for i, v in enumerate(o["verdicts"]) if v == "WRONG"]
     if bad:
         return Failure(c, slim(o), f"storage failure at mutation {bad[0]} of {o['mutations']} leaves a store that validates and reads as a graph "
@@ -271,6 +284,10 @@ def nontrivial(c, o):
 
 def describe(c, o):
     from collections import Counter
+    if c["kind"] == "ecrash":
+        from harness import c05_entries
+
+        return c05_entries.describe(c, o)
     cnt = Counter(o["verdicts"])
     return f"{c['entry']}:{c['kind']}:v{c['fmt']}:{c['pre']}:ov={int(c['overwrite'])}:{o['res'][0] if o['res'][0]=='ok' else o['res'][1]}:muts~{o['mutations']//10*10}:{'+'.join(sorted(cnt))}"
 
